@@ -81,6 +81,10 @@ const (
 	kPtrStruct
 	kStructSlice
 	kMapPtrStruct
+	// containers of containers of validated structs: the validator must reach the inner elements
+	kStructSliceSlice    // [][]vs
+	kMapStructSlice      // map[string][]vs
+	kPtrStructSliceSlice // [][]*vs
 )
 
 type pspec struct {
@@ -118,6 +122,9 @@ var methodTable = []mspec{
 	{Name: "vptr", Params: []pspec{{"tag", false, kString}, {"v", true, kPtrStruct}}},
 	{Name: "vslice", Params: []pspec{{"tag", false, kString}, {"vs", false, kStructSlice}}},
 	{Name: "vmap", Params: []pspec{{"tag", false, kString}, {"m", false, kMapPtrStruct}}},
+	{Name: "vnest", Params: []pspec{{"tag", false, kString}, {"vv", false, kStructSliceSlice}}},
+	{Name: "vmapslice", Params: []pspec{{"tag", false, kString}, {"ms", false, kMapStructSlice}}},
+	{Name: "vnestptr", Params: []pspec{{"tag", false, kString}, {"pp", true, kPtrStructSliceSlice}}},
 	{Name: "anyp", Params: []pspec{{"tag", false, kString}, {"x", false, kAny}, {"m", true, kMapAny}}},
 	{Name: "hdr", Params: []pspec{{"tag", false, kString}}},
 	{Name: "fail", Params: []pspec{{"tag", false, kString}, {"code", false, kInt}}, Reply: replyAppErr},
@@ -190,6 +197,11 @@ func newHsrv(poolSize int) *hsrv {
 		"vmap": func(tag string, m map[string]*vs) (any, *jsonrpc.Error) {
 			return rec.rec("vmap", tag, m), nil
 		},
+		"vnest": func(tag string, v [][]vs) (any, *jsonrpc.Error) { return rec.rec("vnest", tag, v), nil },
+		"vmapslice": func(tag string, m map[string][]vs) (any, *jsonrpc.Error) {
+			return rec.rec("vmapslice", tag, m), nil
+		},
+		"vnestptr": func(tag string, v [][]*vs) (any, *jsonrpc.Error) { return rec.rec("vnestptr", tag, v), nil },
 		"anyp": func(tag string, x any, m map[string]any) (any, *jsonrpc.Error) {
 			return rec.rec("anyp", tag, x, m), nil
 		},
